@@ -185,8 +185,10 @@ def rewrite(v, rule):
             return rewrite(pairs, "seqdigest") if rule == "seqdigest" else pairs
         return type(v)((k, rewrite(e, rule)) for (k, e) in v.items())
     if dataclasses.is_dataclass(v) and not isinstance(v, type):
-        d = dict((f.name, rewrite(getattr(v, f.name), rule)) for f in dataclasses.fields(v))
-        return rewrite(d, rule) if rule != "dataclass" else d
+        if rule == "dataclass":
+            # a field value is hashed twice (digest of its digest), i.e. like a one-element list: DC(a=v) is encoded like {'a': [v]}
+            return dict((f.name, [rewrite(getattr(v, f.name), rule)]) for f in dataclasses.fields(v))
+        return type(v)(**dict((f.name, rewrite(getattr(v, f.name), rule)) for f in dataclasses.fields(v)))
     return v
 
 
@@ -196,10 +198,23 @@ def known_rule(sel, args, rule):
     y = _build(sel["b"], _get(args, "y"))
     if equivalent(x, y):
         return False
-    try:
-        return canon(rewrite(x, rule)) == canon(rewrite(y, rule))
-    except DDSException:
+
+    def same(rules):
+        try:
+            u, w = x, y
+            for r in rules:
+                u, w = rewrite(u, r), rewrite(w, r)
+            return canon(u) == canon(w)
+        except (DDSException, TypeError):
+            return False
+
+    if same([rule]):
+        return True
+    # two classes combined (e.g. a dataclass whose field holds a 4-byte str vs a dict holding the int with these bytes):
+    # attributed to `rule` only if no single rule explains the pair
+    if any(same([q]) for q in RULES if q != rule):
         return False
+    return any(same([rule, q]) or same([q, rule]) for q in RULES if q != rule)
 
 
 def known_hex(sel, args):
@@ -300,6 +315,7 @@ def _special_float(a):
 
 def pair_impl(a):
     h.enter()
+    hashmodel.MODEL.reset()  # the block predicates hash too: same model state on every path
     if _special_float(a) or h.blocked(**a):
         return True
     hashmodel.MODEL.reset()
